@@ -47,7 +47,23 @@ def _adapters():
             return numpy.array(out)
         return g
 
+    from ixpeobssim.binning import base as bbase
+
+    def wavg(a, b):
+        mk = lambda v, w: ns(**{'_xBinnedFileBase__data_dict': {'V': v, 'W': w}})
+        return bbase.xBinnedFileBase._weighted_average(mk(a['a'], a['a_2']), mk(a['b'], a['b_2']), 'V', 'W', 0., b['invert_w2'])
+
+    from ixpeobssim.binning import misc as bmisc
+
+    def lciadd(a):
+        me = ns(EXPOSURE=a['self_EXPOSURE'].copy(), COUNTS=a['self_COUNTS'].copy(), ERROR=a['self_ERROR'].copy(), _check_iadd=lambda *x, **k: None)
+        ot = ns(EXPOSURE=a['other_EXPOSURE'].copy(), COUNTS=a['other_COUNTS'].copy(), ERROR=a['other_ERROR'].copy())
+        r = bmisc.xBinnedLightCurve.__iadd__(me, ot)
+        return r.COUNTS, r.EXPOSURE, r.ERROR
+
     A = {
+        'lc_iadd': lciadd,
+        'weighted_average': wavg,
         'stokes_q': lambda a: SA.stokes_q(a['phi']),
         'stokes_u': lambda a: SA.stokes_u(a['phi'], None),
         'align_stokes_parameters': lambda a: align.align_stokes_parameters(a['q'], a['u'], a['q0'], a['u0']),
@@ -137,6 +153,12 @@ def domain(name, lean, g, n):
         v = u(-8., 8., n)
     elif name in ('half_side_x', 'half_side_y'):
         v = u(5., 7.5, n)
+    elif name in ('self_EXPOSURE', 'other_EXPOSURE'):                   # exposures of the two light curves in a bin: positive or exactly zero
+        v = numpy.where(u(0, 1, n) < 0.75, u(0.5, 2000., n), 0.)
+    elif name in ('self_COUNTS', 'other_COUNTS', 'self_ERROR', 'other_ERROR'):
+        v = u(0., 500., n)
+    elif name in ('a_2', 'b_2') and lean == 'weighted_average':      # weights of the two files: positive, exactly zero (empty bin) or negative
+        v = numpy.where(u(0, 1, n) < 0.6, u(0.01, 50., n), numpy.where(u(0, 1, n) < 0.6, 0., u(-5., -0.01, n)))
     elif name == 'roll_angle':
         v = u(0., 360., n)
     elif name == 'energy':
